@@ -1,0 +1,18 @@
+//go:build verif
+
+package shard
+
+import "github.com/semafind/semadb/diskstore"
+
+// VerifDB exposes the shard's storage handle to the verification harness
+// (only compiled with -tags verif). It lets the harness dump buckets of a
+// live shard.
+func (s *Shard) VerifDB() diskstore.DiskStore {
+	return s.db
+}
+
+// VerifSetDB lets the verification harness wrap the storage handle with a
+// fault / crash / pause injecting proxy (only compiled with -tags verif).
+func (s *Shard) VerifSetDB(db diskstore.DiskStore) {
+	s.db = db
+}
